@@ -250,7 +250,7 @@ func (c *Ctx) runWorker(self string, i, n int, extra []string) (*Report, string)
 	}
 	werr := cmd.Wait()
 	if werr != nil || rep == nil {
-		wc := WorkerCrash{LastCase: last, Output: tail(errb.String(), 3000), Exit: fmt.Sprint(werr)}
+		wc := WorkerCrash{LastCase: last, Output: head(errb.String(), 3000), Exit: fmt.Sprint(werr)}
 		if CrashHandler != nil {
 			r := CrashHandler(c, wc)
 			if r != nil {
